@@ -19,6 +19,11 @@ RULE = (
     "a watchdog with re-run-alone protocol. distinct = program hash / (shape, size); non-trivial = at least 2 task "
     "instances and 1 flush, or any deep/wide case."
 )
+RULE += (
+    " One program in ten is a 'revisit' program (a task reached twice in one traversal, unblocked in between by "
+    "a sibling's item.value()); a fifth have flush bodies that call asynq synchronously, a quarter cancel a "
+    "pending batch by hand."
+)
 ASSUMPTIONS = [
     "termination (a liveness claim) is restated as bounded progress: exact step counts plus a generous watchdog",
     "depth is sampled up to 250000 tasks, not 'however deep'",
